@@ -110,6 +110,7 @@ func ledgerExec1(op string) string {
 			burn: u64(m, "burn", 10), maxtxn: u64(m, "maxtxn", 32768), maxblk: u64(m, "maxblk", 32768), prec: u64(m, "prec", 3),
 			ubf: u64(m, "ubf", 10), umax: u64(m, "umax", 32768), uprec: u64(m, "uprec", 3),
 		}
+		rp.cbf, rp.cmax, rp.cprec = u64(m, "cbf", rp.burn), u64(m, "cmax", rp.maxtxn), u64(m, "cprec", rp.prec)
 		c8On = false
 		w, err := newWorld(rp)
 		if err != nil {
@@ -124,6 +125,7 @@ func ledgerExec1(op string) string {
 			burn: u64(m, "burn", 10), maxtxn: u64(m, "maxtxn", 32768), maxblk: u64(m, "maxblk", 32768), prec: u64(m, "prec", 3),
 			ubf: u64(m, "ubf", 10), umax: u64(m, "umax", 32768), uprec: u64(m, "uprec", 3),
 		}
+		rp.cbf, rp.cmax, rp.cprec = u64(m, "cbf", rp.burn), u64(m, "cmax", rp.maxtxn), u64(m, "cprec", rp.prec)
 		out, err := c8Begin(rp)
 		if err != nil {
 			return "R" + errCode(err)
